@@ -12,5 +12,12 @@ for cfg in ('all', 'default'):
     f, info = facts.extract(cfg)
     print('warm', info)
 PY
+python3 - <<'PY'
+import sys
+sys.path.insert(0, '/verif')
+from vlib import witness
+d, arts = witness._deps('/repo')
+print('witness deps', sorted(arts))
+PY
 python3 -m compileall -q vlib >/dev/null
 echo setup ok
